@@ -457,6 +457,39 @@ pub fn c05(seed: u64, thorough: bool, maxruns: u64, tw: &mut TraceWriter) -> Cov
             cov.informative += 1;
             *cov.kinds.entry("asym".into()).or_insert(0) += 1;
         }
+        // a member falsely declared Down renews, and is then cut off alone while the forget-timer of its PREVIOUS
+        // identity is still pending: that timer fires in the middle of the partition, after the renewed identity
+        // has been declared Down in its turn (two Downs of one address within remove_down_after)
+        for victim in 0..n.min(2) {
+            let mut cfg = base_cfg();
+            cfg.notifydown = true;
+            cfg.pad = Some((4000, 2));
+            let dur = (2 * n as u64 + 3) * cfg.period + cfg.s2d + cfg.period;
+            cfg.rda = 3 * cfg.period + dur + 4000;
+            let lat = (0, cfg.rtt / 4 - 1);
+            let cseed: u64 = master.random();
+            let groups: Vec<u8> = (0..n).map(|i| if i == victim { 1 } else { 0 }).collect();
+            let Some(mut sim) = formed(n, &cfg, Policy::Next, cseed, lat, run, "c05", json!({"groups": groups.clone(), "refalse": victim}), tw) else { continue };
+            run += 1;
+            let accuser = (victim + 1) % n;
+            let vid = sim.id_of(victim);
+            sim.call(accuser, Call::ApplyMany(vec![Member::new(vid, 0, State::Down)], true));
+            let t = sim.now + 3 * cfg.period;
+            sim.run_until(t);
+            sim.partition(groups.clone());
+            let t = sim.now + dur + 8000;
+            sim.run_until(t);
+            let md = mutual_down(&sim, &groups);
+            sim.heal();
+            let t = sim.now + 8 * 4000 + cfg.period;
+            sim.run_until(t);
+            sim.end(json!({"mutual_down": md}));
+            cov.runs += 1;
+            if md {
+                cov.informative += 1;
+            }
+            *cov.kinds.entry("refalse".into()).or_insert(0) += 1;
+        }
     }
     cov
 }
